@@ -78,7 +78,8 @@ PROPS = {
                      "Sqlize.C01.indexes_with_dropped_columns", "Sqlize.Abs.Idx.plan_correct", "Sqlize.Abs.Idx.emitSup_correct", "Sqlize.Abs.Idx.dropCols_idxs",
                      "Sqlize.Table.walkIdx_refines_sup", "Sqlize.Spec.execAll_wf",
                      "Sqlize.C01.equal_column_untouched", "Sqlize.Table.walkCols_about", "Sqlize.Table.diffCols1_unchanged_mem",
-                     "Sqlize.C01.equal_primary_key_untouched"],
+                     "Sqlize.C01.equal_primary_key_untouched", "Sqlize.C01.tables_from_scripts", "Sqlize.Migration.migrate_tbl",
+                     "Sqlize.Migration.diffTables2_appends"],
         "suites": [{"name": "pair"}],
         "corr_points": ["load-old", "load-new", "state-old", "state-new", "Diff", "state-diff", "StringUp"],
         "rule": PAIR_RULE,
